@@ -205,9 +205,9 @@ def enumerated(tier, seed):
 
 def searches(tier):
     q = tier == "quick"
-    return [("valid", _valid, 4000 if q else 100000), ("mutation", _mutation, 30000 if q else 1500000),
-            ("tokens", _tokens, 40000 if q else 2000000), ("include_graphs", _graph, 400 if q else 20000),
-            ("cli", _cli, 320 if q else 20000)]
+    return [("valid", _valid, 4000 if q else 60000), ("mutation", _mutation, 30000 if q else 500000),
+            ("tokens", _tokens, 40000 if q else 700000), ("include_graphs", _graph, 400 if q else 10000),
+            ("cli", _cli, 320 if q else 8000)]
 
 
 def render(case):
